@@ -11,6 +11,8 @@ use vcore::pool::Worker;
 use vcore::Stats;
 
 pub struct Slice {
+    /// additional input characters beyond the frame's alphabet
+    pub extra_alpha: Vec<char>,
     pub name: String,
     pub frames: Vec<Frame>,
     pub bodies: Rc<Vec<String>>,
@@ -78,8 +80,14 @@ pub fn for_each_grammar(slices: &[Slice], w: &mut Worker, stats: &mut Stats, mut
     let mut index: u64 = 0;
     for sl in slices {
         for fr in &sl.frames {
-            let alpha = fr.alphabet();
+            let mut alpha = fr.alphabet();
+            for c in &sl.extra_alpha {
+                if !alpha.contains(c) {
+                    alpha.push(*c);
+                }
+            }
             let l = if alpha.len() >= 4 { sl.len4 } else { sl.len };
+            let alpha = alpha;
             let inputs = Rc::new(gram::inputs(&alpha, l));
             let mut first_in_frame = true;
             for body in sl.bodies.iter() {
@@ -136,13 +144,14 @@ pub fn standard(quick: bool, scale: i32) -> Vec<Slice> {
         // size <= 3 in the union of the three coordinate planes of the frame cube, L = 4 (3 with 4 letters)
         let frames = gram::frames(false, true);
         let l = if scale < 0 { 3 } else { 4 };
-        v.push(Slice { name: "size<=3".into(), frames, bodies: Rc::new(upto3), len: l, len4: 3, extra_rules: "" });
+        v.push(Slice { extra_alpha: vec![], name: "size<=3".into(), frames, bodies: Rc::new(upto3), len: l, len4: 3, extra_rules: "" });
     } else {
-        v.push(Slice { name: "size<=3/all-frames".into(), frames: gram::frames(true, true), bodies: Rc::new(upto3), len: 5, len4: 4, extra_rules: "" });
+        v.push(Slice { extra_alpha: vec![], name: "size<=3/all-frames".into(), frames: gram::frames(true, true), bodies: Rc::new(upto3), len: 5, len4: 4, extra_rules: "" });
         let plain: Vec<Frame> = gram::frames(false, false).into_iter().filter(|f| (f.ws <= 1 && f.sdef == 0) || (f.ws == 0 && f.ty == 0)).collect();
-        v.push(Slice { name: "size4/plain-frames".into(), frames: plain, bodies: Rc::new(by[4].clone()), len: 4, len4: 3, extra_rules: "" });
+        v.push(Slice { extra_alpha: vec![], name: "size4/plain-frames".into(), frames: plain, bodies: Rc::new(by[4].clone()), len: 4, len4: 3, extra_rules: "" });
     }
     v.push(Slice {
+        extra_alpha: vec![],
         name: "stack-transactions".into(),
         frames: gram::frames(false, false).into_iter().filter(|f| f.sdef == 0 && (f.ws == 0 || (f.ws == 1 && f.ty == 0)) && (!quick || f.ty == 0 || f.ty == 2)).collect(),
         bodies: Rc::new(gram::stack_transaction_bodies()),
@@ -150,8 +159,18 @@ pub fn standard(quick: bool, scale: i32) -> Vec<Slice> {
         len4: if quick { 4 } else { 5 },
         extra_rules: gram::STACK_TX_EXTRA_RULES,
     });
+    v.push(Slice {
+        extra_alpha: vec!['!'],
+        name: "many-rules".into(),
+        frames: gram::frames(false, false).into_iter().filter(|f| f.sdef == 0 && f.ws <= 1 && (f.ty == 0 || (!quick && f.ws == 0))).collect(),
+        bodies: Rc::new(gram::many_rules_bodies(if quick { 3 } else { 4 })),
+        len: if quick { 3 } else { 4 },
+        len4: 3,
+        extra_rules: gram::MANY_RULES_EXTRA,
+    });
     let redex: Vec<String> = gram::redex_bodies(if quick { 7 } else { gram::REDEX_TERMS.len() }).into_iter().map(|x| x.0).collect();
     v.push(Slice {
+        extra_alpha: vec![],
         name: "redexes".into(),
         frames: gram::frames(!quick, false).into_iter().filter(|f| quick || f.sdef <= 2).collect(),
         bodies: Rc::new(redex),
@@ -170,10 +189,10 @@ pub fn small(quick: bool) -> Vec<Slice> {
     let by = gram::bodies_by_size(&leaves, &unary, 3);
     let upto2: Vec<String> = by.iter().take(3).flatten().cloned().collect();
     let mut v = vec![];
-    v.push(Slice { name: "size<=2/all-frames".into(), frames: gram::frames(true, true), bodies: Rc::new(upto2), len: if quick { 3 } else { 4 }, len4: 3, extra_rules: "" });
+    v.push(Slice { extra_alpha: vec![], name: "size<=2/all-frames".into(), frames: gram::frames(true, true), bodies: Rc::new(upto2), len: if quick { 3 } else { 4 }, len4: 3, extra_rules: "" });
     let plain: Vec<Frame> = gram::frames(false, false).into_iter().filter(|f| (f.ws <= 1 && f.sdef == 0) || (f.ws == 0 && f.ty == 0) || !quick).collect();
-    v.push(Slice { name: "size3/plain-frames".into(), frames: plain, bodies: Rc::new(by[3].clone()), len: if quick { 3 } else { 4 }, len4: 3, extra_rules: "" });
+    v.push(Slice { extra_alpha: vec![], name: "size3/plain-frames".into(), frames: plain, bodies: Rc::new(by[3].clone()), len: if quick { 3 } else { 4 }, len4: 3, extra_rules: "" });
     let redex: Vec<String> = gram::redex_bodies(if quick { 4 } else { 7 }).into_iter().map(|x| x.0).collect();
-    v.push(Slice { name: "redexes".into(), frames: gram::frames(false, false).into_iter().filter(|f| !quick || f.sdef == 0).collect(), bodies: Rc::new(redex), len: if quick { 3 } else { 4 }, len4: 3, extra_rules: gram::REDEX_EXTRA_RULES });
+    v.push(Slice { extra_alpha: vec![], name: "redexes".into(), frames: gram::frames(false, false).into_iter().filter(|f| !quick || f.sdef == 0).collect(), bodies: Rc::new(redex), len: if quick { 3 } else { 4 }, len4: 3, extra_rules: gram::REDEX_EXTRA_RULES });
     v
 }
